@@ -229,7 +229,7 @@ def _catalogue(tier, seed):
     o1 = O([4], [[2], [2]], [[1], [1]])
     h1 = HP(1, [4, 4])
     prods = [("Grid x Grid", P(g1, g1b)), ("Grid x Grid2d", P(g1, g2)), ("Open x Grid", P(o1, g1)),
-             ("Grid x HEALPix", P(g1, HP(1, [4, 4]) if not q else HP(1, [4])))]
+             ("Grid x HEALPix", P(g1, h1) if not q else P(G([2], [[2]]), HP(1, [4])))]
     if not q:
         prods += [("HEALPix x Open", P(h1, o1)),
                   ("Grid x HEALPix x Grid2d", P(G([3], [[2], [2]]), h1, G([3, 2], [[1, 2], [1, 2]]))),
